@@ -1484,3 +1484,100 @@ func hasPop(body []ast.Stmt, c *mirrorCmp) bool {
 	}
 	return found
 }
+
+// ---------- ROOT-1 ----------
+
+func init() {
+	register(&Rule{
+		ID: "ROOT-1",
+		Doc: "a change of variable is undone on every path (contradiction rule): when a geom function returning []float64 corrects every element of its result by one loop-invariant offset (roots[i] -= s: the roots of the depressed polynomial shifted back), " +
+			"every return that can be reached after the offset was computed passes that loop; a return that skips it hands out roots of the substituted polynomial, not of the one that was given, and the curve/barrier intersection test built on them misses crossings",
+		Floor: 1,
+		Ctl:   []string{"internal__geom__root1.go.txt"},
+		Run:   runRoot1,
+	})
+}
+
+func runRoot1(m *Model, r *RuleResult) {
+	for _, f := range m.Src {
+		if shortPkg(pkgPathOf(f)) != geomPkg || f.Parent() != nil || len(f.Blocks) == 0 || f.Signature.Results().Len() != 1 {
+			continue
+		}
+		sl, ok := f.Signature.Results().At(0).Type().Underlying().(*types.Slice)
+		if !ok || !isFloatType(sl.Elem()) {
+			continue
+		}
+		loops := naturalLoops(f)
+		n := 0
+		eachInstr(f, func(in ssa.Instruction) {
+			st, ok := in.(*ssa.Store)
+			if !ok {
+				return
+			}
+			ia, ok := st.Addr.(*ssa.IndexAddr)
+			if !ok {
+				return
+			}
+			bo, ok := st.Val.(*ssa.BinOp)
+			if !ok || (bo.Op != token.SUB && bo.Op != token.ADD) {
+				return
+			}
+			ld, ok := bo.X.(*ssa.UnOp)
+			if !ok || ld.Op != token.MUL {
+				return
+			}
+			if lia, ok := ld.X.(*ssa.IndexAddr); !ok || lia.X != ia.X || lia.Index != ia.Index { // go/ssa has no CSE: roots[i] is addressed twice
+				return
+			}
+			ls := loopsContaining(loops, st.Block())
+			if len(ls) == 0 {
+				return
+			}
+			var outer *loopInfo
+			for _, l := range ls {
+				if outer == nil || len(l.Body) > len(outer.Body) {
+					outer = l
+				}
+			}
+			off, ok := bo.Y.(ssa.Instruction)
+			if !ok || outer.Body[off.Block()] {
+				return // the offset is not a loop-invariant computed value
+			}
+			// the corrected slice is what the function returns
+			returned := false
+			eachInstr(f, func(in2 ssa.Instruction) {
+				if ret, ok := in2.(*ssa.Return); ok && len(ret.Results) == 1 && ret.Results[0] == ia.X {
+					returned = true
+				}
+			})
+			if !returned {
+				return
+			}
+			n++
+			key := fmt.Sprintf("shifted-back-on-every-path:%s#%d", funcKey(f), n)
+			ctl := m.FuncIsPosctl(f)
+			// returns reachable from the offset's definition without passing the loop head
+			seen := map[*ssa.BasicBlock]bool{}
+			queue := []*ssa.BasicBlock{off.Block()}
+			esc := ""
+			for len(queue) > 0 && esc == "" {
+				b := queue[0]
+				queue = queue[1:]
+				if seen[b] || b == outer.Head {
+					continue
+				}
+				seen[b] = true
+				if ret, ok := b.Instrs[len(b.Instrs)-1].(*ssa.Return); ok {
+					esc = m.Pos(ret.Pos())
+				}
+				queue = append(queue, b.Succs...)
+			}
+			if esc == "" {
+				r.add(Obligation{Key: key, Pos: m.Pos(st.Pos()), Desc: "every return after the offset " + bo.Y.Name() + " was computed passes the loop that shifts the roots back", Verdict: "holds", Control: ctl})
+			} else {
+				r.add(Obligation{Key: key, Pos: m.Pos(st.Pos()), Desc: "every return after the offset was computed must pass the loop that shifts the roots back", Verdict: "violation",
+					Detail: "the return at " + esc + " is reached without the correction applied at " + m.Pos(st.Pos()) + ": on that path the function returns roots of the substituted polynomial", Control: ctl})
+			}
+		})
+	}
+}
